@@ -14,6 +14,7 @@ var All = map[string]func() *corr.Engine{
 	"C07": C07,
 	"C09": C09,
 	"C13": C13,
+	"C14": C14,
 	"C10": C10,
 	"C11": C11,
 	"C12": C12,
